@@ -70,6 +70,7 @@ def run(tier, out):
                 "%d random schedules of depth 200 per configuration; distinct = exported transitions" % ([p[0] for p in plans], nrand),
         "self_test": st_desc,
     }
+    cloudcommon.design(PID, tier, out, cov)
     cloudcommon.part(PID, tier, out, cov, extra={"recovery runs": np_ + ".cloud"})
     return out.finish("model_checking", cov, assumptions=[
         "signatures, ECDH and AEAD are perfect (symbolic in the specification)",
